@@ -197,15 +197,32 @@ def _event_values(n: int, e0: int, e1: int, e2: int, init: int, asyncres: bool, 
     return result(ok, N >= 1)
 
 
-REFUSALS = ("two-root-fields", "no-subscription-resolver", "query-operation", "blocking-runtime", "mutation-like-unknown-op")
+# (label, document, the root field has a subscription resolver, runtime supports streams, refused)
+REFUSALS = (
+    ("two-root-fields", "subscription { counter { v } other { v } }", True, True, True),
+    ("no-subscription-resolver", "subscription { counter { v } }", False, True, True),
+    ("query-operation", "{ a }", True, True, True),
+    ("blocking-runtime", "subscription { counter { v } }", True, False, True),
+    ("two-root-fields-through-a-named-fragment", "subscription { ...F } fragment F on Subscription { counter { v } other { v } }", True, True, True),
+    ("two-root-fields-through-an-inline-fragment", "subscription { ... on Subscription { counter { v } other { v } } }", True, True, True),
+    ("two-root-fields-one-direct-one-in-a-fragment", "subscription { counter { v } ... { other { v } } }", True, True, True),
+    ("two-aliases-of-one-field", "subscription { a: counter { v } b: counter { v } }", True, True, True),
+    ("two-root-fields-second-operation", "query Q { a } subscription S { counter { v } other { w } }", True, True, True),
+    ("mutation-like-unknown-type", "mutation { a }", True, True, True),
+    # controls: one response key however it is spelled is ONE root field and must be served
+    ("control-single", "subscription { counter { v } }", True, True, False),
+    ("control-same-field-twice", "subscription { counter { v } counter { w } }", True, True, False),
+    ("control-through-fragments", "subscription { ...F ... { counter { w } } } fragment F on Subscription { counter { v } }", True, True, False),
+    ("control-skipped-second-field", "subscription { counter { v } other @skip(if: true) { v } }", True, True, False),
+)
 
 
 def _refusals(r: int, asyncres: bool) -> bool:
     """
-    pre: 0 <= r < 4
+    pre: 0 <= r < len(REFUSALS)
     post: _
     """
-    R = pick(r, REFUSALS)
+    label, doc, with_res, streams, refused_expected = pick(r, REFUSALS)
     AR = True if asyncres else False
     with untraced():
         src = Source([event_for(0, "value", "value")], [0])
@@ -213,21 +230,23 @@ def _refusals(r: int, asyncres: bool) -> bool:
         loop = DetLoop()
         try:
             rt = AsyncIORuntime(loop=loop, execute_blocking_functions_in_thread=False)
-            schema = make_schema(holder, AR, with_sub_resolver=(R != "no-subscription-resolver"))
-            doc = {"two-root-fields": "subscription { counter { v } other { v } }", "no-subscription-resolver": "subscription { counter { v } }",
-                   "query-operation": "{ a }", "blocking-runtime": "subscription { counter { v } }"}[R]
-            runtime = BlockingRuntime() if R == "blocking-runtime" else rt
-            refused = None
+            schema = make_schema(holder, AR, with_sub_resolver=with_res)
+            runtime = rt if streams else BlockingRuntime()
+            refused, results = None, None
+            kw = {"operation_name": "S"} if "subscription S" in doc else {}
             try:
-                out = subscribe(schema, parse(doc), runtime=runtime)
+                out = subscribe(schema, parse(doc), runtime=runtime, **kw)
                 if asyncio.iscoroutine(out) or asyncio.isfuture(out):
                     async def main():
                         s = await out
-                        return [x async for x in s]
-                    loop.run_until_complete(main())
+                        return [x.response().get("data") async for x in s]
+                    results = loop.run_until_complete(main())
             except (RuntimeError, ExecutionError) as e:
                 refused = type(e).__name__
-            ok = refused is not None and src.anext_calls == 0
+            if refused_expected:
+                ok = refused is not None and src.anext_calls == 0
+            else:
+                ok = refused is None and results is not None and len(results) == 1 and set(results[0]) == {"counter"} and src.anext_calls == 2
         finally:
             loop.close()
     return result(ok, True)
@@ -252,7 +271,8 @@ CONDITIONS = [
     ),
     Cond(
         name="refusals", fn=_refusals, quick=60, thorough=60,
-        bound="4 refused requests (two root fields, no subscription resolver, query operation, runtime without stream support) x sync/async subscription resolver: documented exception, source never consumed",
+        bound="%d requests: 10 that must be refused (two root fields written directly / through a named or inline fragment / mixed / as two aliases / in a named operation, no subscription resolver, query or mutation operation, "
+              "runtime without stream support) and 4 controls that must be served (one response key spelled once, twice, through fragments, next to a skipped field) x sync/async subscription resolver: documented exception and source never consumed, or exactly one result per event" % len(REFUSALS),
         symbolic={"r": "choice", "asyncres": "choice"}, witness={"r": 0, "asyncres": False},
     ),
 ]
